@@ -558,7 +558,10 @@ pub fn check_absorb<S: Subject>(plan: &Plan, ctx: &Ctx, stats: &mut Stats, eq_ex
         if let Err(f) = judge(&sim, stats, ctx, know, &lin, &d, &format!("{what} changed what r{r} reads ('expected' = before)"), r, &oa, &ob) {
             return Err(fail_with(&sim, stats, f));
         }
-        if d.is_empty() && *before != sim.reps[r].st {
+        // `==` of Map<_,MVReg> can panic (MVReg::eq asserts uniqueness; known class MAP-T5 produces duplicates): a panic
+        // counts as "not equal" and is then judged by the same exemption as any other == failure
+        let same = std::panic::catch_unwind(std::panic::AssertUnwindSafe(|| *before == sim.reps[r].st)).unwrap_or(false);
+        if d.is_empty() && !same {
             let ex = if stats.strict { None } else { eq_exempt(&sim, know, &lin) };
             match ex {
                 Some(c) => stats.exempt(c),
